@@ -2,6 +2,8 @@
    the crash half of C03 is carried by the write-ahead-log model, see Properties/C02.v). *)
 From Coq Require Import NArith List Bool.
 From PDB Require Import Model.Pipeline Model.PipelineSpec Proofs.PipelineTop.
+From PDB Require Model.Wal Proofs.WalProofs.
+From Coq Require Import Arith.
 Import ListNotations.
 Open Scope N_scope.
 
@@ -41,3 +43,25 @@ Example C03_nonvacuous :
 Proof. vm_compute. repeat split; reflexivity. Qed.
 
 Print Assumptions C03_close_persists_all.
+
+(* The crash half: at ANY reachable state of the write-ahead-log protocol (Model/Wal.v) the records the
+   log keeps, replayed over the surviving tables, give the state after m records for every admissible m,
+   and every admissible m is at least the number of synced records: a crash loses at most a suffix of
+   not-yet-synced commits. (The protocol theorems are those of C02 / C12; restated here for the clause
+   of this property.) *)
+Module CrashHalf.
+Import PDB.Model.Wal PDB.Proofs.WalProofs.
+Theorem C03_synced_records_survive_crash :
+  forall (T0 : base) (w : wst), reach T0 w ->
+  forall m, (Wal.s w <= m <= length (recs w))%nat ->
+  forall l, apply_recs (sub (recs w) (Wal.t w) m) (C w) l = apply_recs (firstn m (recs w)) T0 l.
+Proof. exact crash_recovers. Qed.
+Theorem C03_synced_records_survive_power_loss :
+  forall (T0 : base) (w : wst), reach T0 w ->
+  forall m D', (Wal.s w <= m <= length (recs w))%nat ->
+  (forall l, Wal.dirty w l = false -> D' l = D w l) ->
+  forall l, apply_recs (sub (recs w) (Wal.t w) m) D' l = apply_recs (firstn m (recs w)) T0 l.
+Proof. exact power_loss_recovers. Qed.
+End CrashHalf.
+Print Assumptions CrashHalf.C03_synced_records_survive_crash.
+Print Assumptions CrashHalf.C03_synced_records_survive_power_loss.
